@@ -106,6 +106,12 @@ class _NoTransfer:
 
     asarray = staticmethod(np.asarray)
 
+    def __init__(self, real):
+        self._real = real
+
+    def __getattr__(self, name):  # everything else is the real jax.numpy
+        return getattr(self._real, name)
+
 
 def tag(t, n):
     return 1000.0 * t + n + 1
@@ -169,7 +175,8 @@ class Stub:
 def grid(b, fine):
     g1 = [k / 32 for k in range(1, 32)] if fine else [k / 16 for k in range(1, 16)]
     if b == 1:
-        return [(u,) for u in g1]
+        # plus the two ends of the open interval: the largest double below 1 and a tiny positive variate
+        return [(u,) for u in g1] + [(1.0 - 2.0**-53,), (2.0**-60,)]
     g2 = [k / 8 for k in range(1, 8)]
     return list(itertools.product(g2, repeat=b))
 
@@ -427,7 +434,8 @@ def law_item(item, col):
                 continue
             total = float(w.sum())
             for b in (1, 2, 3):
-                for us in itertools.product([1 / 16, 0.25, 0.5, 0.75, 15 / 16], repeat=b) if b < 3 else [(0.25, 0.5, 0.75), (1 / 16, 1 / 16, 15 / 16)]:
+                ends = [1.0 - 2.0**-53, 2.0**-60] if b == 1 else []  # the ends of the open interval (0, 1)
+                for us in itertools.product([1 / 16, 0.25, 0.5, 0.75, 15 / 16] + ends, repeat=b) if b < 3 else [(0.25, 0.5, 0.75), (1 / 16, 1 / 16, 15 / 16)]:
                     stub = Stub(us=list(us))
                     idx = pb.prioritized_sampling(n, b, stub, mask)
                     for j in range(b):
@@ -521,8 +529,11 @@ def work(item, col):
     cfg = item
     from rl_blox.blox import replay_buffer as rb
 
+    from vlib import poison
+
+    poison.install()
     real_jnp = rb.jnp
-    rb.jnp = _NoTransfer
+    rb.jnp = _NoTransfer(real_jnp)
     try:
         res = e1.bfs(
             make=lambda: make(cfg, col),
